@@ -7,6 +7,7 @@ import (
 
 	"github.com/ipfs/go-cid"
 	"github.com/ipld/go-car/v2/index"
+	"github.com/multiformats/go-multicodec"
 	mh "github.com/multiformats/go-multihash"
 	"github.com/multiformats/go-varint"
 )
@@ -224,7 +225,20 @@ func runIdxBigImpl(codec uint64, d c11BigDesc, samples [][2]uint64, trailer []by
 		answers = after
 		fe = fe2
 	}
-	return VL{VT("ok"), VN(reported), VN(uint64(len(raw))), vbool(structure), VN(uint64(len(entries))), reread, VN(uint64(fe)), answers}
+	// the same records through an InsertionIndex (one InsertNoReplace each, as a writing session does)
+	// and Flatten
+	flat := VL{VN(0), VN(0), VT("diff")}
+	if fi, err := c11InsertionIndex(rs).Flatten(multicodec.Code(codec)); err == nil {
+		if fraw, _, err := writeIndex(fi); err == nil {
+			fes, fok := c11BigStructure(fraw)
+			same := VT("same")
+			if valString(getAllsVal(fi, qs, true)) != valString(before) {
+				same = VT("diff")
+			}
+			flat = VL{vbool(fok && c11BigSameMultiset(codec, fes, rs)), VN(uint64(len(fes))), same}
+		}
+	}
+	return VL{VT("ok"), VN(reported), VN(uint64(len(raw))), vbool(structure), VN(uint64(len(entries))), reread, VN(uint64(fe)), answers, flat}
 }
 
 func c11BigDescOf(v Val) c11BigDesc {
